@@ -88,10 +88,12 @@ class Inval:
                 out.add(recv[: -len(self.cache) - 1])
         return out
 
-    def node_invalidates(self, n, depth=2):
+    def node_invalidates(self, n, depth=2, func=None):
         if n.kind != 'stmt' or isinstance(n.ast, (ast.FunctionDef, ast.ClassDef)):
             return set()
         out = self.direct(n.ast)
+        if func is not None:
+            out = {pat.expand_alias(func, n, r) for r in out}
         if depth > 0:
             for c in calls_in(n.ast):
                 if isinstance(c.func, ast.Attribute):
@@ -109,7 +111,7 @@ class Inval:
             return self._always[key]
         self._always[key] = set()
         g = func.cfg()
-        inv = {n: self.node_invalidates(n, depth) for n in g.nodes}
+        inv = {n: self.node_invalidates(n, depth, func) for n in g.nodes}
         cands = set().union(*inv.values()) if inv else set()
         res = set()
         for r in cands:
@@ -234,7 +236,7 @@ def rule_a_b(repo, chk, mgrs, inval, flag):
             continue
         chk.touch(func)
         g = func.cfg()
-        inv = {n: inval.node_invalidates(n) for n in g.nodes}
+        inv = {n: inval.node_invalidates(n, func=func) for n in g.nodes}
         params = set(func.params)
         for (n, kind, recv, val) in ws:
             writers += 1
@@ -333,7 +335,7 @@ def check_delegate_callers(repo, chk, func, param, inval, mgrs):
                 chk.touch(caller)
                 recv = src(node.func.value)
                 arg = src(node.args[idx])
-                inv = {n: inval.node_invalidates(n) for n in g.nodes}
+                inv = {n: inval.node_invalidates(n, func=caller) for n in g.nodes}
                 for cn in g.node_for(node):
                     n_sites += 1
                     targets = [arg]
